@@ -362,6 +362,7 @@ def check(run):
             run.fail(key, "target %s: output differs between processes with different PYTHONHASHSEED: %s" % (target, {s: (v[1], v[2]) for s, v in outs.items()}), dict(potable_file=cfg, outputs={str(s): v for s, v in outs.items()}))
 
 
+    same_model_through_overrides(run)
     # several --add-item / --override-item options: the order in which they are applied must not depend on the hash seed
     base = tab_section("LAMMPS") + "[Pair]\nA-A : as.buck 1000.0 0.3 10.0\n"
     adds = ["Pair:%s-%s=as.buck %d.0 0.3 %d.0" % (a, b, 500 + 37 * i, i) for i, (a, b) in enumerate([("B", "B"), ("A", "B"), ("C", "A"), ("C", "C"), ("D", "A")])]
@@ -378,6 +379,56 @@ def check(run):
     if len(set((v[0], v[1]) for v in outs.values())) != 1 or any(v[0] != 0 for v in outs.values()):
         run.fail("hash-seed-dependent-output", "potable with five --add-item options: output differs between processes with different PYTHONHASHSEED (block order %s)" % {s_: v[2] for s_, v in outs.items()},
                  dict(potable_file=base, add_items=adds))
+
+
+def same_model_through_overrides(run):
+    """the same model reached three ways - read as it is, read with an item overridden by the value it already has, read from a file in which that item holds another
+    value and overridden to the value - gives the same bytes: the output is a function of the model, not of how the parser object was arrived at (block order
+    included: an overridden entry stays where it stands in the file; round-8 seed C12_14)"""
+    from atsim.potentials.config import ConfigParser, Configuration
+    import collections
+    T = collections.namedtuple("T", ["section", "key", "value"])
+    rng = run.rng
+    for rep in range(run.n(6, 40)):
+        target = rng.choice(["LAMMPS", "GULP", "DLPOLY", "setfl"])
+        labels = rng.sample(["Al", "Cu", "Ag", "Zr", "Ni"], 3)
+        pairs = [(a, b) for i_, a in enumerate(labels) for b in labels[i_:]]
+        rng.shuffle(pairs)
+        vals = {p_: "as.buck %d.0 0.3 %d.0" % (rng.randint(200, 2000), rng.randint(0, 30)) for p_ in pairs}
+        eam = target == "setfl"
+        head = tab_section(target, nr=8 if target != "DLPOLY" else 8)
+
+        def text(v):
+            t = head + "[Pair]\n" + "".join("%s-%s : %s\n" % (a, b, v[(a, b)]) for a, b in pairs)
+            if eam:
+                t += "\n[EAM-Embed]\n" + "".join("%s : as.sqrt %d.0\n" % (l, 2 + i_) for i_, l in enumerate(labels))
+                t += "\n[EAM-Density]\n" + "".join("%s : as.bornmayer %d.0 0.5\n" % (l, 5 + i_) for i_, l in enumerate(labels))
+            return t
+        victim = pairs[rng.randrange(len(pairs) - 1)]                     # not the last entry of the section
+        sec, key, val = "Pair", "%s-%s" % victim, vals[victim]
+        if eam and rng.random() < 0.5:
+            sec, key, val = "EAM-Embed", labels[0], "as.sqrt 2.0"
+        other = dict(vals)
+        plain = text(vals)
+        if sec == "Pair":
+            other[victim] = "as.buck 1.0 0.5 0.0"
+            detour = text(other)
+        else:
+            detour = plain.replace("%s : as.sqrt 2.0" % labels[0], "%s : as.sqrt 77.0" % labels[0], 1)
+        binary = False
+        try:
+            b0 = write_bytes(Configuration().read(io.StringIO(plain)), binary)
+            b1 = write_bytes(Configuration().read_from_parser(ConfigParser(io.StringIO(plain), overrides=[T(sec, key, val)])), binary)
+            b2 = write_bytes(Configuration().read_from_parser(ConfigParser(io.StringIO(detour), overrides=[T(sec, key, val)])), binary)
+        except Exception as e:
+            run.fail("override-changes-model", "target %s: reading the model with [%s] %s overridden raised %s: %s" % (target, sec, key, type(e).__name__, str(e)[:200]), dict(potable_file=plain))
+            continue
+        run.case(key=("same-model-overrides", plain, sec, key), kind="same-model/overrides/%s" % target)
+        run.traces += 3
+        if not (b0 == b1 == b2):
+            which = "overridden by the value it already has" if b0 != b1 else "reached from a file that held another value"
+            run.fail("override-changes-model", "target %s: the model read as it is and the same model with [%s] %s %s give different bytes (%s vs %s)" % (
+                target, sec, key, which, digest(b0), digest(b1 if b0 != b1 else b2)), dict(potable_file=plain, override=[sec, key, val], other_file=detour))
 
 
 def replay(run, payload):
